@@ -585,3 +585,40 @@ def run(ctx, prj: Project):
     rule_R3(ctx, prj)
     rule_R4(ctx, prj)
     ctx.exhaustive = True
+
+
+def run_thorough(ctx, prj: Project):
+    """the same site table, but every integer length 1..5000 instead of the literal neighbourhoods"""
+    from .. import intdec
+    ctx.rule("R1-exhaustive", "R1 re-evaluated for every integer length from 1 to 5000 at every table site (no sampling)")
+    facts = LengthFacts(prj, seed_functions=tuple(SITES))
+    old = intdec.sample_points
+    intdec.sample_points = lambda lits: list(range(1, 5001))
+    import sys
+    mod = sys.modules[__name__]
+    old_local = mod.sample_points
+    mod.sample_points = intdec.sample_points
+    try:
+        before = len(ctx.violations)
+        for q, spec in SITES.items():
+            fi = prj.func(q)
+            pred = facts.subject_pred(fi)
+            lab = _labeller(spec["label"], pred)
+            bad = None
+            for v in range(1, 5001):
+                tree, _ = residual(fi, pred, v)
+                want = spec["expect"](category(v))
+                if want is None:
+                    continue
+                ctx.obligations += 1
+                if lab(tree, v) != want:
+                    bad = bad or v
+                else:
+                    ctx.discharged += 1
+            if bad:
+                ctx.viol("R1-exhaustive", fi.local, fi.site(), f"length {bad} is decided differently from the specification")
+            else:
+                ctx.ok("R1-exhaustive", fi.site(), f"{fi.local}: 5000 lengths")
+    finally:
+        intdec.sample_points = old
+        mod.sample_points = old_local
